@@ -16,15 +16,15 @@ from .inval import api_functions, base
 ROW, STRUCT, COL = "row", "struct", "col"
 ARRAYS = {
     "ILLlpdata::rhs": ROW, "ILLlpdata::sense": ROW, "ILLlpdata::rangeval": ROW, "ILLlpdata::rowmap": ROW, "ILLlpdata::rownames": ROW,
-    "ILLlp_cache::pi": ROW, "ILLlp_cache::slack": ROW, "ILLlp_basis::rstat": ROW, "QSbasis::rstat": ROW,
+    "ILLlp_cache::pi": ROW, "ILLlp_cache::slack": ROW, "ILLlp_basis::rstat": ROW, "QSbasis::rstat": ROW, "qsbasis::rstat": ROW,
     "ILLlpdata::structmap": STRUCT, "ILLlpdata::colnames": STRUCT, "ILLlpdata::intmarker": STRUCT, "ILLlpdata::is_sos_mem": STRUCT,
-    "ILLlp_cache::x": STRUCT, "ILLlp_cache::rc": STRUCT, "ILLlp_basis::cstat": STRUCT, "QSbasis::cstat": STRUCT,
+    "ILLlp_cache::x": STRUCT, "ILLlp_cache::rc": STRUCT, "ILLlp_basis::cstat": STRUCT, "QSbasis::cstat": STRUCT, "qsbasis::cstat": STRUCT,
     "ILLlpdata::obj": COL, "ILLlpdata::lower": COL, "ILLlpdata::upper": COL, "ILLmatrix::matcnt": COL, "ILLmatrix::matbeg": COL,
     "lpinfo::baz": ROW, "lpinfo::vstat": COL, "lpinfo::vtype": COL, "lpinfo::vindex": COL, "lpinfo::cz": COL, "lpinfo::lz": COL, "lpinfo::uz": COL,
 }
 DIMS = {
-    "ILLlpdata::nrows": ROW, "ILLmatrix::matrows": ROW, "lpinfo::nrows": ROW, "ILLlp_cache::nrows": ROW, "QSbasis::nrows": ROW, "ILLlp_basis::nrows": ROW,
-    "ILLlpdata::nstruct": STRUCT, "ILLlp_cache::nstruct": STRUCT, "QSbasis::nstruct": STRUCT, "ILLlp_basis::nstruct": STRUCT,
+    "ILLlpdata::nrows": ROW, "ILLmatrix::matrows": ROW, "lpinfo::nrows": ROW, "ILLlp_cache::nrows": ROW, "QSbasis::nrows": ROW, "qsbasis::nrows": ROW, "ILLlp_basis::nrows": ROW,
+    "ILLlpdata::nstruct": STRUCT, "ILLlp_cache::nstruct": STRUCT, "QSbasis::nstruct": STRUCT, "qsbasis::nstruct": STRUCT, "ILLlp_basis::nstruct": STRUCT,
     "ILLlpdata::ncols": COL, "ILLmatrix::matcols": COL, "lpinfo::ncols": COL,
 }
 # a bound of class a implies the bound of class b (nstruct <= ncols)
